@@ -182,7 +182,8 @@ class ModbusTransactionManager(object):
                             delay = 2 ** (self.retries - retries) * self.backoff
                             time.sleep(delay)
                             _logger.debug("Sleeping {}".format(delay))
-                        full = False
+                        # datagram transports deliver a reply in one read
+                        full = "modbusudpclient" in c_str.lower().strip()
                         broadcast = False
                         retries -= 1
                     addTransaction = partial(self.addTransaction,
